@@ -30,6 +30,8 @@ const repo = "/repo"
 type unitInfo struct {
 	Name   string `json:"name"`
 	Weight int    `json:"weight"`
+	Shards int    `json:"shards"`
+	shard  int
 }
 
 type violation struct {
@@ -48,6 +50,7 @@ type violation struct {
 
 type unitResult struct {
 	Unit       string         `json:"unit"`
+	Shard      string         `json:"shard,omitempty"`
 	Stats      map[string]any `json:"stats"`
 	Violations []violation    `json:"violations"`
 	SigCounts  map[string]int `json:"sig_counts"`
@@ -183,6 +186,21 @@ func main() {
 		}
 		units = f
 	}
+	// expand sharded units
+	var expanded []unitInfo
+	for _, u := range units {
+		if u.Shards <= 1 {
+			u.Shards = 1
+			expanded = append(expanded, u)
+			continue
+		}
+		for k := 0; k < u.Shards; k++ {
+			v := u
+			v.shard = k
+			expanded = append(expanded, v)
+		}
+	}
+	units = expanded
 	// heavier units first; VERIF_SEED only rotates the order of equal-weight units
 	sort.SliceStable(units, func(i, j int) bool { return units[i].Weight > units[j].Weight })
 	if seed != 0 && len(units) > 1 {
@@ -206,7 +224,7 @@ func main() {
 			sem <- struct{}{}
 			defer func() { <-sem }()
 			outf := filepath.Join(work, fmt.Sprintf("res-%d.json", i))
-			args := []string{"-prop", prop, "-tier", *tier, "-unit", u.Name, "-out", outf, "-deadline", fmt.Sprint(perUnit)}
+			args := []string{"-prop", prop, "-tier", *tier, "-unit", u.Name, "-out", outf, "-deadline", fmt.Sprint(perUnit), "-shard", fmt.Sprint(u.shard), "-nshards", fmt.Sprint(u.Shards)}
 			c := exec.Command(ha, args...)
 			c.Dir = work
 			c.Env = env(work, "VERIF_TASK_BIN="+taskBin, "VERIF_SEED="+fmt.Sprint(seed))
@@ -227,6 +245,9 @@ func main() {
 			}
 			if r.HarnessErr != "" {
 				harnessErrs = append(harnessErrs, fmt.Sprintf("unit %s: %s", u.Name, r.HarnessErr))
+			}
+			if u.Shards > 1 {
+				r.Shard = fmt.Sprintf("%d/%d", u.shard, u.Shards)
 			}
 			results[i] = &r
 		}(i, u)
@@ -274,6 +295,9 @@ func main() {
 			}
 		}
 		us := map[string]any{"unit": r.Unit}
+		if r.Shard != "" {
+			us["shard"] = r.Shard
+		}
 		for k, v := range r.Stats {
 			if k != "sample_traces" && k != "scenario" {
 				us[k] = v
